@@ -20,7 +20,8 @@ CLAUSE_PROP = [
     ("mk.guard-leaf", "C03"), ("mk.ids", "C03"), ("mk.labels", "C03"), ("mk.kids-foreign-change", "C03"),
     ("mk.depth", "C03"), ("mk.layers", "C03"), ("mk.anomaly", "C03"), ("mk.unknown-parent", "C03"),
     ("mk.no-tree", "C03"), ("init.struct", "C03"), ("init.order", "C03"), ("init.ids", "C03"),
-    ("init.anomaly", "C03"), ("call.struct-change", "C03"), ("final.struct-change", "C03"),
+    ("init.anomaly", "C03"), ("call.struct-change", "C03"), ("final.struct-change", "C03"), ("final.struct", "C03"),
+    ("final.outside-root", "C01"),
     ("end.domain-mutated", "C14"),
     ("credit", "C04"), ("stats", "C04"),
     ("pull.", "C05"), ("index.", "C05"),
